@@ -150,6 +150,8 @@ def c13(tier):
 
 def c14(tier):
     pre = [Ob('probe_ascii_case_holds', strlen=L, unwind=L + 4, note='std model self-test: to_ascii_uppercase/lowercase, all strings of %d bytes' % L) for L in (0, 2, 4)]
+    pre += [Ob('probe_unicode_case_holds', strlen=L, unwind=L + 4, dom={'n': (0, 2 * L), 'k': (0, 2 * L)}, profiles=('on',), opts={'validate_only': True},
+               note='encoding validation only: to_uppercase (std table of this build), strings of %d bytes' % L) for L in (1, 2, 4)]
     lens = [0, 5, 19, 20, 21, 25, 26, 30, 35, 42] if tier != 'thorough' else list(range(0, 46))
     obs = []
     for L in lens:
